@@ -55,7 +55,7 @@ class _Canon(ast.NodeTransformer):
         self.generic_visit(node)
         if len(node.targets) == 1 and isinstance(node.targets[0], (ast.Name, ast.Attribute, ast.Subscript)) and isinstance(node.value, ast.BinOp):
             t = node.targets[0]
-            if isinstance(node.value.op, (ast.Add, ast.Sub, ast.Mult)) and ast.dump(_as_load(t)) == ast.dump(node.value.left):
+            if isinstance(node.value.op, (ast.Add, ast.Sub, ast.Mult)) and type(t) is type(node.value.left) and ast.unparse(t) == ast.unparse(node.value.left):
                 return ast.copy_location(ast.AugAssign(target=t, op=node.value.op, value=node.value.right), node)
         return node
 
